@@ -56,3 +56,4 @@ Example C17_nonvacuous :
      16 < capacity m /\ In Tomb (buckets m) /\
      N.of_nat (length demo_history) * 100 < 1073741824.
 Proof. exact demo_history_ok. Qed.
+Print Assumptions C17_nonvacuous.
